@@ -219,6 +219,69 @@ fn clone_shallow(b: &Bound, g: &SymbolicAsyncGraph) -> Bound {
     Bound { name: b.name.clone(), spec: b.spec.clone(), aeon: b.aeon.clone(), bn: b.bn.clone(), k: b.k, graph: g.clone(), n: b.n, cols: b.cols.clone(), col_vals, invalid_valuations: b.invalid_valuations }
 }
 
+/// build_initial_archive: exactly the model and the formula list, whatever was at the path before.
+pub fn check_initial(b: &Bound, formulas: &[String], prior: u8) -> Option<String> {
+    use biodivine_hctl_model_checker::generate_output::build_initial_archive;
+    let dir = tempfile::tempdir().ok()?;
+    let path = dir.path().join("sub").join("initial.zip");
+    let path_s = path.to_str().unwrap().to_string();
+    let r = guarded(AssertUnwindSafe(|| -> Option<String> {
+        match prior {
+            4 => {
+                let other = BooleanNetwork::try_from("zz_old -| zz_old\n$zz_old: !zz_old\n").unwrap();
+                let go = get_extended_symbolic_graph(&other, 1).unwrap();
+                let old: HashMap<String, GraphColoredVertices> = (0..200).map(|i| (format!("formula-{i}"), go.mk_unit_colored_vertices())).collect();
+                if let Err(e) = build_result_archive(old, &path_s, other.to_string().as_str(), (0..200).map(|i| format!("OLD FORMULA {i}")).collect()) {
+                    return Some(format!("harness: writing the earlier archive fails: {e}"));
+                }
+            }
+            5 => {
+                let _ = std::fs::create_dir_all(path.parent().unwrap());
+                let junk: Vec<u8> = (0..200_000u32).map(|i| (i.wrapping_mul(2654435761) >> 13) as u8).collect();
+                if std::fs::write(&path, junk).is_err() {
+                    return Some("harness: cannot prepare the pre-existing file".into());
+                }
+            }
+            _ => {}
+        }
+        let model = b.bn.to_string();
+        if let Err(e) = build_initial_archive(&path_s, &model, formulas.to_vec()) {
+            return Some(format!("build_initial_archive fails: {e}"));
+        }
+        let entries = match cli::read_zip(&path) {
+            Ok(e) => e,
+            Err(e) => return Some(format!("initial archive is not a readable zip: {e}")),
+        };
+        let names: Vec<&str> = entries.iter().map(|(n, _)| n.as_str()).collect();
+        let mut sorted = names.clone();
+        sorted.sort();
+        if sorted != vec!["formulae.txt", "model.aeon"] {
+            return Some(format!("initial archive has entries {names:?}, expected exactly model.aeon and formulae.txt"));
+        }
+        let m = &entries.iter().find(|(n, _)| n == "model.aeon").unwrap().1;
+        if m != &model {
+            return Some("model.aeon of the initial archive differs from the model text given".into());
+        }
+        let lines: Vec<String> = entries.iter().find(|(n, _)| n == "formulae.txt").unwrap().1.lines().map(|l| l.to_string()).collect();
+        if lines != formulas {
+            return Some(format!("formulae.txt of the initial archive has lines {lines:?}, given {formulas:?}"));
+        }
+        let g = match get_extended_symbolic_graph(&b.bn, 1) {
+            Ok(g) => g,
+            Err(e) => return Some(format!("harness: {e}")),
+        };
+        match load_bdd_bundle(&path_s, g.symbolic_context()) {
+            Ok(map) if map.is_empty() => None,
+            Ok(map) => Some(format!("an archive without sets reloads with labels {:?}", map.keys().collect::<Vec<_>>())),
+            Err(e) => Some(format!("load_bdd_bundle fails on the initial archive: {e}")),
+        }
+    }));
+    match r {
+        Ok(v) => v,
+        Err(p) => Some(format!("panic: {p}")),
+    }
+}
+
 /// analyse_formulae writes entry `formula-i` for line i of formulae.txt.
 pub fn check_analysis(b: &Bound, formulas: &[String]) -> Option<String> {
     check_analysis_print(b, formulas, None)
@@ -234,7 +297,13 @@ pub fn check_analysis_print(b: &Bound, formulas: &[String], print: Option<(&str,
     let r = guarded(AssertUnwindSafe(|| -> Option<String> {
         match print {
             None => {
-                if let Err(e) = analyse_formulae(&b.bn, formulas.to_vec(), PrintOptions::NoPrint, Some(path_s.clone()), None) {
+                // a single line goes through the single-formula variant of the analysis
+                let r = if formulas.len() == 1 {
+                    biodivine_hctl_model_checker::analysis::analyse_formula(&b.bn, formulas[0].clone(), PrintOptions::NoPrint, Some(path_s.clone()), None)
+                } else {
+                    analyse_formulae(&b.bn, formulas.to_vec(), PrintOptions::NoPrint, Some(path_s.clone()), None)
+                };
+                if let Err(e) = r {
                     return Some(format!("analyse_formulae fails: {e}"));
                 }
             }
@@ -419,6 +488,10 @@ pub fn replay(case: &Value) -> Option<String> {
     if case.get("analysis_ctx").is_some() {
         return check_analysis_ctx(&b);
     }
+    if let Some(fs) = case.get("initial") {
+        let fs: Vec<String> = serde_json::from_value(fs.clone()).ok()?;
+        return check_initial(&b, &fs, case["prior"].as_u64().unwrap_or(0) as u8);
+    }
     if let Some(fs) = case.get("analysis") {
         let fs: Vec<String> = serde_json::from_value(fs.clone()).ok()?;
         if let Some(p) = case.get("print").and_then(|p| p.as_str()) {
@@ -546,6 +619,17 @@ pub fn run(tier: &str) -> Result<Report, String> {
             }
         }
     }
+    // initial archives (model + formula list only)
+    for b in nets.iter().filter(|b| which.contains(&b.name.as_str())) {
+        for l in &alists {
+            for prior in [0u8, 4, 5] {
+                rep.evaluations += 1;
+                if let Some(w) = check_initial(b, l, prior) {
+                    rep.violations.push(Violation { case: json!({"kind": "archive", "net": b.spec, "initial": l, "prior": prior}), what: format!("build_initial_archive on {} for {l:?} (history of the path: {prior}): {w}", b.name), size: l.len() });
+                }
+            }
+        }
+    }
     // the archive -> analysis -> archive chain with context sets inside and outside the valid colours
     for b in nets.iter().filter(|b| which.contains(&b.name.as_str())) {
         rep.evaluations += 1;
@@ -554,6 +638,6 @@ pub fn run(tier: &str) -> Result<Report, String> {
         }
     }
     rep.sample(json!({"network": "con2", "format": "sbml", "k": 2, "labels": ["a", "x_1", "A.b", "formula-0"], "formulae_lines": 3}));
-    rep.rule = format!("networks {which:?} x input format (aeon, aeon with reversed line order, sbml, bnet where the format reproduces the network exactly) x k in {ks:?} x 9 label->set maps (labels model, formulae, model.aeon, formulae.txt, sub/model, True, in; a map with 70 labels formula-0..formula-69; empty map, empty set, unit set, colour-dependent/empty-for-some-colours/colour-disjoint family sets, raw results; labels formula-0, a, x_1, A.b, run.2.fixed, 'dom 1', x-y, é_2, BDD, a.bdd, nested labels zz/p 0/p dir/sub/q next to p, s0..) x 4 formula lists (0-3 lines) x (aeon) 6 histories of the target path (fresh, an earlier result archive of another model with other formulae and overlapping + additional labels, a non-zip file, an empty file, a much longer earlier archive with 200 entries, a 200 kB non-zip file): build_result_archive -> independent unzip (entry list exact, formulae.txt lines) -> model.aeon re-parsed, symbolic context compared by variable names -> load_bdd_bundle (for k >= 1 the map also holds sets that depend on the spare variable sets, compared as BDDs) -> every set compared point-wise on all (state, valid colour) pairs and as BDD -> reloaded sets used as wild-card/domain context of three extended formulae; plus analyse_formulae archives (in process, and through the tool under each of the four print options, on a fresh output path and over a much longer earlier archive): entry formula-i equals the result of line i; plus the chain context archive -> analyse_formulae -> result archive with context sets inside and outside the valid colours (whole symbolic space, raw state variable) vs evaluation with the in-memory sets. distinct_nontrivial = round-trip cases with at least one set");
+    rep.rule = format!("networks {which:?} x input format (aeon, aeon with reversed line order, sbml, bnet where the format reproduces the network exactly) x k in {ks:?} x 9 label->set maps (labels model, formulae, model.aeon, formulae.txt, sub/model, True, in; a map with 70 labels formula-0..formula-69; empty map, empty set, unit set, colour-dependent/empty-for-some-colours/colour-disjoint family sets, raw results; labels formula-0, a, x_1, A.b, run.2.fixed, 'dom 1', x-y, é_2, BDD, a.bdd, nested labels zz/p 0/p dir/sub/q next to p, s0..) x 4 formula lists (0-3 lines) x (aeon) 6 histories of the target path (fresh, an earlier result archive of another model with other formulae and overlapping + additional labels, a non-zip file, an empty file, a much longer earlier archive with 200 entries, a 200 kB non-zip file): build_result_archive -> independent unzip (entry list exact, formulae.txt lines) -> model.aeon re-parsed, symbolic context compared by variable names -> load_bdd_bundle (for k >= 1 the map also holds sets that depend on the spare variable sets, compared as BDDs) -> every set compared point-wise on all (state, valid colour) pairs and as BDD -> reloaded sets used as wild-card/domain context of three extended formulae; plus build_initial_archive (exactly model.aeon and formulae.txt, on a fresh path and over a longer archive / file); plus analyse_formulae / analyse_formula archives (in process, and through the tool under each of the four print options, on a fresh output path and over a much longer earlier archive): entry formula-i equals the result of line i; plus the chain context archive -> analyse_formulae -> result archive with context sets inside and outside the valid colours (whole symbolic space, raw state variable) vs evaluation with the in-memory sets. distinct_nontrivial = round-trip cases with at least one set");
     Ok(rep)
 }
